@@ -21,19 +21,35 @@ BOUNDS = {"quick": {"globals": "box per JDF (<= 4 values each)", "instances": "s
 STUBS = ["parsec_hash_table_init", "data_repo_create_nothreadsafe", "parsec_taskpool_enable", "termdet module (addto/ready)",
          "parsec_class_initialize (empty ctor/dtor tables)", "data collection rank_of/vpid_of/data_of"]
 
-# (jdf, name, ncoord, [(class, cid, has_startup, multi_startup, maxt)], globals box)
+# (jdf, name, ncoord, [(class, cid, has_startup, no_out_edges, max in-degree, some instance has >=2 preds)], globals box, trip(g) = max trip count of a generated loop,
+#  nstart(g) = upper bound on the number of startup tasks, quick-tier valuations for the O2 queries)
 def corpus(ctx):
     t = ctx.thorough
     r4, r5 = range(0, 4), range(0, 6)
     return [
-        ("jdf:chain.jdf", "chain", 1, [("C", 0, 1, 0, 2)], [r5 if t else r4]),
-        ("jdf:grid.jdf", "grid", 2, [("G", 0, 1, 1, 5), ("H", 1, 0, 0, 0)], [range(0, 4 if t else 3), range(-1, 7 if t else 5)]),
-        ("jdf:tree.jdf", "tree", 2, [("T", 0, 1, 0, 2), ("S", 1, 0, 0, 0)], [range(0, 4 if t else 3)]),
-        ("jdf:derived.jdf", "derived", 2, [("P", 0, 1, 1, 13), ("Q", 1, 0, 0, 0)], [range(-1, 3)]),
-        ("jdf:pingpong.jdf", "pingpong", 1, [("PING", 0, 1, 0, 2), ("PONG", 1, 0, 0, 0)], [r5 if t else r4]),
-        ("repo:tests/dsl/ptg/startup.jdf", "startup", 2, [("STARTUP", 0, 1, 1, 9)], [range(0, 3)] * 3),
-        ("repo:examples/Ex02_Chain.jdf", "Ex02_Chain", 1, [("Task", 0, 1, 0, 2)], [r5 if t else r4]),
+        ("jdf:chain.jdf", "chain", 1, [("C", 0, 1, 0, 2, 1)], [r5 if t else r4], lambda g: g[0], lambda g: 1, [(3,)]),
+        ("jdf:grid.jdf", "grid", 2, [("G", 0, 1, 0, 1, 0), ("H", 1, 0, 1, 2, 1)], [range(0, 4 if t else 3), range(-1, 7 if t else 5)],
+         lambda g: max(g[0] + 1, g[1] + 3), lambda g: g[0] + 1, [(2, 3), (1, 4)]),
+        ("jdf:tree.jdf", "tree", 2, [("T", 0, 1, 0, 1, 0), ("S", 1, 0, 1, 8, 1)], [range(0, 4 if t else 3)], lambda g: 1 << g[0], lambda g: 1, [(2,)]),
+        ("jdf:derived.jdf", "derived", 2, [("P", 0, 1, 0, 0, 0), ("Q", 1, 0, 1, 1, 0)], [range(-1, 3)], lambda g: max(g[0] + 2, 3),
+         lambda g: 3 * (g[0] + 2), [(0,)]),
+        ("jdf:pingpong.jdf", "pingpong", 1, [("PING", 0, 1, 0, 1, 0), ("PONG", 1, 0, 0, 1, 0)], [r5 if t else r4], lambda g: g[0] + 1, lambda g: 1, [(2,)]),
+        ("repo:tests/dsl/ptg/startup.jdf", "startup", 2, [("STARTUP", 0, 1, 1, 0, 0)], [range(0, 3)] * 3, lambda g: max(g),
+         lambda g: g[0] * g[1] * g[2], [(2, 2, 1)]),
+        ("repo:examples/Ex02_Chain.jdf", "Ex02_Chain", 1, [("Task", 0, 1, 0, 1, 0)], [r5 if t else r4], lambda g: g[0] + 1, lambda g: 1, [(2,)]),
     ]
+
+REFBOX = {"chain": 9, "grid": 14, "tree": 10, "derived": 11, "pingpong": 9, "startup": 6, "Ex02_Chain": 9}   # REF_PHI-REF_PLO+1
+KF_NEG = "C01-descending-range"
+NEG_STEP = {("grid", "G")}       # startup-capable classes with a negative-step parameter range
+
+def kf_open(kid):
+    import json, os
+    try:
+        with open(os.path.join(ptg.VERIF, "known_findings.json")) as f:
+            return any(k.get("id") == kid and k.get("status") == "known" for k in json.load(f).get("findings", []))
+    except OSError:
+        return False
 
 def chunks(l, n):
     for i in range(0, len(l), n):
@@ -44,37 +60,77 @@ def vdefs(ch):
 
 def queries(ctx):
     qs = []
-    for jdf, name, nco, classes, box in corpus(ctx):
+    for jdf, name, nco, classes, box, trip, nstart, quickvals in corpus(ctx):
         vals = list(itertools.product(*box))
         base = dict(object_bits=12, engine="G", gen=ptg.gen(jdf, name), cflags=ptg.CFLAGS, incs=[ptg.JDF_DIR],
-                    units=ptg.UNITS, timeout=900)
-        for cls, cid, has_startup, multi, maxt in classes:
+                    units=ptg.UNITS, timeout=1800)
+        for cls, cid, has_startup, noedges, maxdeg, multi in classes:
             cd = ["JDF=" + name, "CLS=" + cls, "CID=%d" % cid, "VP_DC_NCOORD=%d" % nco]
             # ---- O1 count: all local (1 rank) and a 2-rank placement seen from each rank
             for (nr, me) in ((1, 0), (2, 0), (2, 1)):
                 for ci, ch in enumerate(chunks(vals, 16)):
-                    qs.append(Q("count_%s_%s_r%d.%d_%d" % (name, cls, nr, me, ci), ["count.c"],
-                                defs=cd + vdefs(ch) + ["VP_NRANKS=%d" % nr, "MYRANK=%d" % me], unwind=20,
+                    qs.append(Q("count_%s_%s_r%d.%d_%d" % (name, cls, nr, me, ci), ["o1_count.c"],
+                                defs=cd + vdefs(ch) + ["VP_NRANKS=%d" % nr, "MYRANK=%d" % me] +
+                                (["EXPECT_REMOTE"] if nr > 1 and ci == 0 and (name, cls) not in (("startup", "STARTUP"), ("tree", "S")) else []),
+                                unwind=20,
                                 info={"obligation": "O1 count", "symbolic": ["one task instance (box containment)"],
                                       "enumerated": {"globals": [list(v) for v in ch], "ranks": nr, "myrank": me},
                                       "stubs": STUBS, "jdf": jdf, "class": cls,
                                       "functions": ["%s_%s_internal_init" % (name, cls)], "bounds": {"unwind": 20}}, **base))
-            # ---- O2 startup
+            # ---- O2 startup: one valuation per query (tight unwinding bound = trip count of the generated loops)
             if has_startup:
-                for (nr, me) in ((1, 0), (2, 1)):
-                    for ci, ch in enumerate(chunks(vals, 8)):
-                        d = cd + vdefs(ch) + ["VP_NRANKS=%d" % nr, "MYRANK=%d" % me, "MAXT=%d" % maxt]
-                        if not multi:
+                for v in vals:
+                    quick = v in quickvals
+                    neg = (name, cls) in NEG_STEP
+                    if neg and v[0] == 0 and kf_open(KF_NEG):
+                        # while the finding is open, N = 0 makes the generated startup loop run forever
+                        # (i = 0, -1, -2, ... all satisfy "i <= 0"): no bounded verdict is possible
+                        continue
+                    for (nr, me) in ((1, 0), (2, 1)):
+                        maxt = max(1, nstart(v))
+                        u = max(2, trip(v)) + 2
+                        d = cd + vdefs([v]) + ["VP_NRANKS=%d" % nr, "MYRANK=%d" % me, "MAXT=%d" % maxt]
+                        if nstart(v) < 2 or nr > 1:
                             d.append("NO_MULTI")
-                        qs.append(Q("startup_%s_%s_r%d.%d_%d" % (name, cls, nr, me, ci), ["startup.c"], defs=d,
-                                    unwind=max(20, maxt + 4),
-                                    info={"obligation": "O2 startup", "symbolic": ["parsec_task_startup_iter 1..4", "parsec_task_startup_chunk 0..4",
-                                                                                  "one task instance s"],
-                                          "enumerated": {"globals": [list(v) for v in ch], "ranks": nr, "myrank": me},
-                                          "stubs": STUBS + ["parsec_thread_mempool_allocate (fresh static task)", "__parsec_schedule_vp (records ring)",
+                        if nr > 1:
+                            d.append("REMOTE_VIEW")
+                        qs.append(Q("startup_%s_%s_%s_r%d.%d" % (name, cls, "_".join(str(x).replace("-", "m") for x in v), nr, me),
+                                    ["o2_startup.c"], defs=d, unwind=u, unwindset=["one.0:%d" % (maxt + 3), "main.0:3", "main.1:3"],
+                                    tiers=("quick", "thorough") if quick else ("thorough",),
+                                    kf=(KF_NEG if neg else None),
+                                    info={"obligation": "O2 startup",
+                                          "symbolic": ["parsec_task_startup_iter 1..4", "parsec_task_startup_chunk 0..4", "one task instance s"],
+                                          "enumerated": {"globals": list(v), "ranks": nr, "myrank": me},
+                                          "stubs": STUBS + ["parsec_thread_mempool_allocate (one static task object)",
+                                                            "parsec_list_item_ring_push_sorted (counts tasks equal to s)",
+                                                            "__parsec_schedule_vp (consumes the ring)",
                                                             "parsec_dependencies_mark_task_as_startup (records)"],
                                           "jdf": jdf, "class": cls, "functions": ["__jdf2c_startup_" + cls],
-                                          "bounds": {"created tasks": maxt, "re-entries": maxt + 2}}, **base))
+                                          "bounds": {"created tasks": maxt, "re-entries": maxt + 2, "unwind": u}}, **base))
+            # ---- O3 out-edges: iterate_successors vs reference OUT side
+            neg3 = name == "grid"     # G's descending range i: activations towards G are dropped (known finding)
+            for ci, ch in enumerate(chunks(vals, 6)):
+                qs.append(Q("succ_%s_%s_%d" % (name, cls, ci), ["o3_succ.c"], defs=cd + vdefs(ch) + (["NO_EDGES"] if noedges else []),
+                            unwind=max(20, max(trip(v) for v in ch) + 3), kf=(KF_NEG if (neg3 and cls == "G") else None),
+                            info={"obligation": "O3 out-edges", "symbolic": ["source instance t", "candidate edge (src flow, dst class, dst params, dst flow)"],
+                                  "enumerated": {"globals": [list(v) for v in ch]}, "stubs": STUBS + ["ontask (recording callback)"],
+                                  "jdf": jdf, "class": cls, "functions": ["iterate_successors_of_%s_%s" % (name, cls), "make_key of every class",
+                                                                         "internal_init of every class"]}, **base))
+            # ---- O3 goal: real parsec_update_deps_with_mask/_counter + check_IN on the generated tables
+            for ci, ch in enumerate(chunks(vals, 6)):
+                d = cd + vdefs(ch) + ["MAXDEG=%d" % max(1, maxdeg)]
+                if maxdeg == 0:
+                    d.append("NO_PRED")
+                elif multi:
+                    d.append("MULTI")
+                b2 = dict(base, object_bits=12)
+                qs.append(Q("goal_%s_%s_%d" % (name, cls, ci), ["o3_goal.c", "repo:" + PC], defs=d,
+                            unwind=max(20, maxdeg + 3, REFBOX.get(name, 14) + 2),
+                            info={"obligation": "O3 goal / in-degree", "symbolic": ["destination instance s", "delivery order (rotation)"],
+                                  "enumerated": {"globals": [list(v) for v in ch]}, "stubs": ["none for parsec.c (linked whole); generated tables real"],
+                                  "jdf": jdf, "class": cls,
+                                  "functions": ["parsec_update_deps_with_mask", "parsec_update_deps_with_counter",
+                                                "parsec_check_IN_dependencies_with_mask", "parsec_check_IN_dependencies_with_counter"]}, **b2))
     return qs
 
 def mutants(ctx):
